@@ -1135,21 +1135,7 @@ def _obviously_different(a: HplExpression, b: HplExpression) -> bool:
             if a.operand1 == b and isinstance(a.operand2, HplLiteral):
                 assert a.operand2.value != 0  # due to simplification
                 return True
-        if op.is_times:
-            if a.operand1 == b and isinstance(a.operand2, HplLiteral):
-                assert a.operand2.value != 0  # due to simplification
-                assert a.operand2.value != 1  # due to simplification
-                return True
-        if op.is_division:
-            if a.operand1 == b and isinstance(a.operand2, HplLiteral):
-                assert a.operand2.value != 0  # due to simplification
-                assert a.operand2.value != 1  # due to simplification
-                return True
-        if op.is_power:
-            if a.operand1 == b and isinstance(a.operand2, HplLiteral):
-                assert a.operand2.value != 0  # due to simplification
-                assert a.operand2.value != 1  # due to simplification
-                return True
+        # x * c, x / c and x ** c are not always different from x (x = 0, x = 1)
     return False
 
 
